@@ -1405,8 +1405,8 @@ def check_c03(tier, replay):
     for h in cases:
         for s in h:
             ops[s["op"][0]] = ops.get(s["op"][0], 0) + 1
-    for a in ("CreateSecret", "UpdateSecret", "MoveSecret", "CreateFile", "CreateFolder", "RenameFolder",
-              "SetDescription", "Sync", "Export"):
+    for a in ("CreateSecret", "UpdateSecret", "MoveSecret", "CreateFile", "UpdateFile", "AttachFile",
+              "CreateFolder", "RenameFolder", "SetDescription", "Sync", "Export"):
         if not ops.get(a):
             raise ToolError("no generated behaviour contains %s" % a)
     vlib.cargo_build()
@@ -1430,7 +1430,7 @@ def check_c03(tier, replay):
         raise ToolError("the byte scan does not see the clear tokens Flow.tla predicts (scanner or model out of "
                         "step with the code): %s" % json.dumps(summ["mismatches"][:3])[:1500])
     variants = set(k for k in summ["nontrivial_keys"] if k.startswith("variant:"))
-    if len(variants) < 46:
+    if len(variants) < 48:
         raise ToolError("only %d secret variants were exercised" % len(variants))
     cover = {
         "states": r.distinct, "transitions": r.generated,
